@@ -305,6 +305,9 @@ def _run_case(ck, case, reqs, pending):
     # -------- principal stresses on the real code, load 1
     assign(frame, p1, t1)
     try:
+        # the frame has already served another grid: what is reported afterwards belongs to the grid asked for last
+        impl.quiet(frame.calculate_stress_tensor, (grid % 7) + 2, radius * 1.5)
+        ck.count("principal_after_a_call_with_another_grid")
         impl.quiet(frame.calculate_stress_tensor, grid, radius)
     except Exception as ex:
         ck.fail("Frame.calculate_stress_tensor computes the principal stresses", f"raises {type(ex).__name__}: {ex}", case)
@@ -465,7 +468,7 @@ def gen_cases(ck):
                 "kmax": int(ck.rng.integers(0, 5)), "mobius": bool(i % 2 == 0), "strength": float(np.round(ck.rng.uniform(0.5, 3.0), 2)),
                 "subset": None if i % 4 else float(np.round(ck.rng.uniform(0.3, 0.8), 2)),
                 "p_rev": [0.0, 0.5, 1.0][(i // 3) % 3], "cid": i % 3,
-                "angle": float(np.round(ck.rng.uniform(0, 6.28), 3)), "scale": float(10.0 ** int(ck.rng.integers(-2, 3))),
+                "angle": float(np.round(ck.rng.uniform(0, 6.28), 3)), "scale": float(10.0 ** int(ck.rng.integers(-6, 3))),
                 "tx": float(np.round(ck.rng.normal() * 10.0 ** int(ck.rng.integers(-1, 3)), 3)),
                 "ty": float(np.round(ck.rng.normal() * 10.0 ** int(ck.rng.integers(-1, 3)), 3)),
                 "reflect": bool(i % 5 == 3),
@@ -479,7 +482,7 @@ def gen_cases(ck):
 
 def run(ck):
     ck.rule = ("Voronoi tissues / connected sub-tissues / single cells (random, jittered, hexagonal sites; straight or "
-               "Moebius-curved interfaces with 0..4 interior points; rotated, scaled 1e-2..1e2, shifted, reflected; cell ids "
+               "Moebius-curved interfaces with 0..4 interior points; rotated, scaled 1e-6..1e2, shifted, reflected; cell ids "
                "0.., 5i+11 or starting at -1; clockwise cells) x grid 1..12 x radius 0.5..6 cell radii x directly assigned "
                "pressures and tensions (normal at scales 1e-2..1e2, 15% exact zeros, negative values; also positive-only, "
                "zero tensions, zero pressures, a single loaded cell); non-trivial = some grid cell selects cells with non-zero "
